@@ -1,13 +1,26 @@
 import Gallia.Lib.Proto
 import Gallia.Model.DbLog
-open Gallia Gallia.Proto Gallia.DbLog
+import Gallia.Model.DbTables
+open Gallia Gallia.Proto Gallia.DbLog Gallia.DbTables
 
 /-
   line protocol
     reset
     ex <req> <ret|rexc|exc|cancel> <reply|-> <exc|-> <analyze 0/1> <implicit 0/1> <dSend> <dRecv>   -> ok
-    run <schedule>     schedule over p g c r x k  (prod get commit retry cancel cancelIn); prints
+    run <schedule>     schedule over p g c r f x k  (prod get commit retry commitFail cancel cancelIn); prints
                        "<performed> | row;row;..." with the rows left after disconnect
+    mreset <n>         n producer tasks with empty programs
+    mex <task> <req> <ret|rexc|exc|cancel> <reply|-> <exc|-> <analyze 0/1> <implicit 0/1>        -> ok
+    mrun <ev,ev,...>   events: t<d> tick, c<i> call, f<i> finish, x<i> cancelTask, g / w / r / q writer get / commit /
+                       retry / commitFail; prints "<calls> | rows | wire | retries" (wire = task:req,... in grant order)
+    lflag <events>     0/1 scanner.implicit_logging = False/True, o database opened, e ECU object created, a stored value applied,
+                       r request; prints for every request <flag used><flag asked for>
+    treset             empty database, empty program
+    top <op> [arg]     op in runMeta scanRun discoveryRun discoveryResult sessionTransition scanResult completeRunMeta
+                       propertiesPre completeScanRun
+    trun <ev,ev,...> [interrupted]   events: R one step of the run task, R<n>, R* (to the end), K<n> (until the run task waits in its (n+1)-th awaited statement), X cancel, g e E c C writer
+                       get / execOk / execFail / commitOk / commitFail, W* writer drains; then disconnect (or the interrupted
+                       one); prints the tables, keeps them as the initial database of the next program (a later run on the file)
     spec <n>           rows the specification demands for the first n exchanges of the program
     upd <session> <sec|none> <reply>   -> "<session> <sec|none>"  (ECU.update_state)
     shape <prefix-notation>            -> 1 / 0  (attribute value of this shape can be logged)
@@ -15,6 +28,9 @@ open Gallia Gallia.Proto Gallia.DbLog
 
 structure St where
   prog : List Exchange := []
+  mprogs : List (List Exchange) := []
+  tables : Tables := Tables.empty
+  tprog : List Op := []
 
 def showOptInt : Option Int → String
   | none => "none"
@@ -34,7 +50,7 @@ def showRows (rs : List Row) : String := if rs.isEmpty then "[]" else ";".interc
 
 def parseChoice : Char → Option Choice
   | 'p' => some .prod | 'g' => some .get | 'c' => some .commit | 'r' => some .retry
-  | 'x' => some .cancel | 'k' => some .cancelIn | _ => none
+  | 'x' => some .cancel | 'k' => some .cancelIn | 'f' => some .commitFail | _ => none
 
 def parseOutcome (kind : String) (reply exc : Bytes) : Option Outcome :=
   match kind with
@@ -65,6 +81,84 @@ def parseShape : Nat → List Char → Option (Shape × List Char)
       | none => none
     | _ => none
 
+def parseMEvent (t : String) : Option MChoice :=
+  match t.toList with
+  | ['g'] => some (.w .get)
+  | ['w'] => some (.w .commit)
+  | ['r'] => some (.w .retry)
+  | ['q'] => some (.w .commitFail)
+  | 't' :: r => (String.ofList r).toNat?.map .tick
+  | 'c' :: r => (String.ofList r).toNat?.map .call
+  | 'f' :: r => (String.ofList r).toNat?.map .finish
+  | 'x' :: r => (String.ofList r).toNat?.map .cancelTask
+  | _ => none
+
+def showWire (w : List (Nat × Bytes)) : String :=
+  if w.isEmpty then "[]" else ",".intercalate (w.map fun (i, b) => s!"{i}:{hexOrDash b}")
+
+def showCalls (cs : List Call) : String :=
+  if cs.isEmpty then "[]" else ",".intercalate (cs.map fun c => s!"{c.task}:{if c.granted then 1 else 0}")
+
+def parseOp (name : String) (arg : Option Nat) : Option Op :=
+  match name, arg with
+  | "runMeta", _ => some .runMeta
+  | "scanRun", some u => some (.scanRun u)
+  | "discoveryRun", _ => some .discoveryRun
+  | "discoveryResult", some u => some (.discoveryResult u)
+  | "sessionTransition", some d => some (.sessionTransition d)
+  | "scanResult", some p => some (.scanResult p)
+  | "completeRunMeta", _ => some .completeRunMeta
+  | "propertiesPre", _ => some .propertiesPre
+  | "completeScanRun", _ => some .completeScanRun
+  | _, _ => none
+
+def runToEnd : Nat → TSys → TSys
+  | 0, s => s
+  | fuel+1, s => if s.stopped || (s.cur.isEmpty && s.todo.isEmpty) then s else runToEnd fuel (tstep s .run)
+
+/-- the run task goes on until `n` awaited steps (statements / commits) have completed and it is suspended in the next one -/
+def runAwaits : Nat → Nat → TSys → TSys
+  | 0, _, s => s
+  | fuel+1, n, s =>
+    if s.stopped then s else
+    match s.cur with
+    | [] => if s.todo.isEmpty then s else runAwaits fuel n (tstep s .run)
+    | .enqueue _ :: _ => runAwaits fuel n (tstep s .run)
+    | _ :: _ => if n = 0 then s else runAwaits fuel (n - 1) (tstep s .run)
+
+def drainWriter : Nat → TSys → TSys
+  | 0, s => s
+  | fuel+1, s =>
+    if s.inflight.isNone && s.queue.isEmpty then s
+    else drainWriter fuel (tstep (tstep (tstep s .get) .execOk) .commitOk)
+
+def tEvent (s : TSys) (t : String) : Option TSys :=
+  match t.toList with
+  | ['R'] => some (tstep s .run)
+  | ['R', '*'] => some (runToEnd (4 * (s.todo.length + 1) + 8) s)
+  | 'R' :: r => (String.ofList r).toNat?.map fun n => (List.replicate n TChoice.run).foldl tstep s
+  | 'K' :: r => (String.ofList r).toNat?.map fun n => runAwaits (4 * (s.todo.length + 1) + n + 8) n s
+  | ['X'] => some (tstep s .cancel)
+  | ['g'] => some (tstep s .get)
+  | ['e'] => some (tstep s .execOk)
+  | ['E'] => some (tstep s .execFail)
+  | ['c'] => some (tstep s .commitOk)
+  | ['C'] => some (tstep s .commitFail)
+  | ['W', '*'] => some (drainWriter (s.queue.length + 2) s)
+  | _ => none
+
+def showNats (xs : List Nat) : String := ",".intercalate (xs.map toString)
+
+def showTables (t : Tables) : String :=
+  let on : Option Nat → String := fun o => match o with | some n => toString n | none => "null"
+  "rm=" ++ showNats t.runMeta ++
+  "|ad=" ++ ",".intercalate (t.address.map fun (i, u) => s!"{i}:{u}") ++
+  "|sr=" ++ ",".intercalate (t.scanRun.map fun (i, a, m) => s!"{i}:{on a}:{m}") ++
+  "|dr=" ++ ",".intercalate (t.discoveryRun.map fun (i, m) => s!"{i}:{m}") ++
+  "|dres=" ++ ",".intercalate (t.discoveryResult.map fun (i, r, a) => s!"{i}:{r}:{a}") ++
+  "|res=" ++ ",".intercalate (t.scanResult.map fun (i, r, p) => s!"{i}:{r}:{p}") ++
+  "|st=" ++ ",".intercalate (t.sessionTransition.map fun (r, d) => s!"{r}:{d}")
+
 def parseInt? (s : String) : Option Int :=
   if s.startsWith "-" then (s.drop 1).toNat?.map fun n => -(n : Int) else s.toNat?.map fun n => (n : Int)
 
@@ -88,6 +182,56 @@ def step' (s : St) (line : String) : St × String :=
   | ["run"] =>
     let fin := exec (Sys.init s.prog) []
     (s, s!"{fin.done.length} | {showRows (afterDisconnect fin)}")
+  | ["mreset", n] =>
+    match n.toNat? with
+    | some k => ({ s with mprogs := List.replicate k [] }, "ok")
+    | none => (s, "bad-op")
+  | ["mex", task, req, kind, reply, exc, an, im] =>
+    match task.toNat?, parseHex req, parseHex reply, parseHex exc with
+    | some i, some rq, some rp, some ex =>
+      match parseOutcome kind rp ex, s.mprogs[i]? with
+      | some o, some p =>
+        ({ s with mprogs := s.mprogs.set i (p ++ [{ req := rq, out := o, analyze := an == "1", implicitOn := im == "1",
+                                                       dSend := 0, dRecv := 0 }]) }, "ok")
+      | _, _ => (s, "bad-op")
+    | _, _, _, _ => (s, "bad-op")
+  | ["mrun", evs] =>
+    match (evs.splitOn ",").mapM parseMEvent with
+    | some cs =>
+      let fin := mexec (MSys.init s.mprogs) cs
+      (s, s!"{showCalls fin.calls} | {showRows (afterDisconnectM fin)} | {showWire fin.wire} | {fin.retries}")
+    | none => (s, "bad-op")
+  | ["mrun"] =>
+    let fin := mexec (MSys.init s.mprogs) []
+    (s, s!"{showCalls fin.calls} | {showRows (afterDisconnectM fin)} | {showWire fin.wire} | {fin.retries}")
+  | ["treset"] => ({ s with tables := Tables.empty, tprog := [] }, "ok")
+  | ["top", name] =>
+    match parseOp name none with
+    | some op => ({ s with tprog := s.tprog ++ [op] }, "ok")
+    | none => (s, "bad-op")
+  | ["top", name, arg] =>
+    match parseOp name arg.toNat? with
+    | some op => ({ s with tprog := s.tprog ++ [op] }, "ok")
+    | none => (s, "bad-op")
+  | "trun" :: evs :: rest =>
+    let toks := if evs == "-" then [] else evs.splitOn ","
+    match toks.foldlM tEvent (TSys.init s.tables s.tprog) with
+    | some fin =>
+      let interrupted := rest == ["interrupted"]
+      let t := if interrupted then afterInterruptedDisconnectT fin else afterDisconnectT fin
+      ({ s with tables := t, tprog := [] },
+       s!"{showTables t}|performed={fin.performed.length}|refused={fin.refused}|retries={fin.retries}|dead={if fin.writerDead then 1 else 0}|fk={if t.fkCheck then 1 else 0}|fkc={if fin.committed.fkCheck then 1 else 0}")
+    | none => (s, "bad-op")
+  | ["lflag", evs] =>
+    let ev? : List (Option LEvent) := evs.toList.map fun c =>
+      match c with
+      | '0' => some (.set false) | '1' => some (.set true) | 'o' => some .openDb | 'e' => some .createEcu
+      | 'a' => some .apply | 'r' => some .request | _ => none
+    match ev?.mapM id with
+    | some es =>
+      (s, if (flagsAt Flag.init es).isEmpty then "-" else
+        ",".intercalate ((flagsAt Flag.init es).map fun (u, w) => s!"{if u then 1 else 0}{if w then 1 else 0}"))
+    | none => (s, "bad-op")
   | ["spec", n] =>
     match n.toNat? with
     | some k => (s, showRows (specRows .init 0 (s.prog.take k)))
